@@ -142,6 +142,7 @@ pub struct Shared {
     pub calls_by_cer: Vec<usize>,
     /// answer of the user-validation step for the current ceremony
     pub uv_answer: Result<(bool, bool), u8>,
+    pub uv_asked: bool,
     /// what the environment reports NOW, when it changed after the authenticator was built (an enrolment into user
     /// verification, a store that changes its discoverability support): (uvCap, upCap, disc)
     pub env_now: Option<(Option<bool>, bool, &'static str)>,
@@ -197,6 +198,7 @@ pub fn new_shared() -> Sh {
         faults_by_cer: vec![],
         calls_by_cer: vec![],
         uv_answer: Ok((true, true)),
+        uv_asked: false,
         env_now: None,
         yields: true,
         current: None,
@@ -374,6 +376,12 @@ pub fn make_passkey(d: &mut Dict, rec: &Value, rng: &mut impl RngCore) -> Passke
     )
     .algorithm(iana::Algorithm::ES256)
     .build();
+    // a stored key need not list its parameters in the order this library writes them (an imported key may carry
+    // d before x and y): every second pre-existing credential has them reversed
+    let mut key = key;
+    if d.cred.len() % 2 == 0 {
+        key.params.reverse();
+    }
     d.pubkeys.push((rec["id"].as_str().unwrap().to_string(), pk.as_bytes().to_vec()));
     let user = rec["user"].as_str().unwrap();
     let rp = d.rp_string(rec["rp"].as_str().unwrap());
@@ -671,7 +679,8 @@ impl UserValidationMethod for TUv {
         let ans = {
             let mut s = self.sh.lock().unwrap();
             let shown = credential.map(|p| s.dict.cred_name(&p.credential_id)).unwrap_or_else(|| "none".to_string());
-            let ans = s.uv_answer;
+            // "asked": presence always, verification exactly when this call requires it
+            let ans = if s.uv_asked { Ok((true, verification)) } else { s.uv_answer };
             s.counted += 1;
             let (ok, p, v, e) = match ans {
                 Ok((p, v)) => (true, p, v, 0),
